@@ -20,10 +20,11 @@ import (
 
 // Resources the harness works with. M0 is the small model resource TLC
 // explores exhaustively, M1 its donor, M2 a Questionnaire (the rare plain
-// `integer` element); MR1..MR4 are the shared model
+// `integer` element), M3 a HealthcareService (a repeated value-set bound code);
+// MR1..MR4 are the shared model
 // resources; D1, D2 hold donor elements of every type occurring in them.
 var resourceFiles = []struct{ Name, File string }{
-	{"M0", "C18_M0"}, {"M1", "C18_M1"}, {"M2", "C18_M2"},
+	{"M0", "C18_M0"}, {"M1", "C18_M1"}, {"M2", "C18_M2"}, {"M3", "C18_M3"},
 	{"MR1", "MR1"}, {"MR2", "MR2"}, {"MR3", "MR3"}, {"MR4", "MR4"},
 	{"D1", "C18_D1"}, {"D2", "C18_D2"},
 }
